@@ -35,6 +35,7 @@ def check(run):
         "switches": (cnt(lambda o: o.get("res") == "ok_switch"), 5),
         "side_blocks": (cnt(lambda o: o.get("res") == "ok_side"), 5),
         "truncations": (cnt(lambda o: o["op"] == "truncate"), 3),
+        "restarts": (cnt(lambda o: o["op"] == "restart"), 5),
         "refused": (cnt(lambda o: o.get("res") == "fail"), 5),
         "refused_repeated_transaction": (cnt(lambda o: o["op"] == "confirm" and o.get("res") == "fail"), 5),
     })
